@@ -45,6 +45,11 @@ func init() {
 		f.Sym.IsInf = ex.freshBool("floor.isinf")
 		f.Sym.IsNaN = ex.freshBool("floor.isnan")
 		ex.assume(ex.ctx.Not(ex.ctx.And(f.Sym.IsInf, f.Sym.IsNaN)))
+		// the only opaque floats that reach Floor in juniper are quotients of two logarithms of
+		// numbers in (0,1): non-negative. Finite payloads are assumed in [0, 2^40].
+		c := ex.ctx
+		ex.assume(c.And(c.Cmp(smt.OpSLe, c.ConstS(64, 0), f.Sym.Int), c.Cmp(smt.OpSLe, f.Sym.Int, c.ConstS(64, 1<<40))))
+		ex.report.addAssumption("math.Floor of an opaque float returns an arbitrary integer-valued float in [0, 2^40], or Inf, or NaN (floats are not interpreted)")
 		return f
 	})
 	reg("math.IsNaN", func(fr *frame, args []Value) Value {
@@ -78,15 +83,29 @@ func init() {
 	})
 	reg("runtime.Gosched", func(fr *frame, args []Value) Value { return nil })
 	reg("runtime.Callers", func(fr *frame, args []Value) Value {
-		// arbitrary count in [0, len]; pcs left as they are (opaque to the program)
+		// The stack depth is unknown to the program: the count is one of {0, 2, len(pc)} (empty,
+		// short, buffer full), with at most two "full" answers per path so that callers that
+		// loop until the buffer is not full terminate. The pcs themselves stay opaque zeros.
 		ex := fr.ex
 		s := args[1].(Slice)
-		n := ex.freshVar("runtime.Callers", smt.BV(64), "int")
-		c := ex.ctx
-		ex.assume(c.And(c.Cmp(smt.OpSLe, c.ConstS(64, 0), n), c.Cmp(smt.OpSLe, n, c.ConstS(64, int64(len(s.A))))))
-		return n
+		opts := []int{0}
+		if len(s.A) >= 2 {
+			opts = append(opts, 2)
+		}
+		if ex.callersFull < 2 && len(s.A) > 2 {
+			opts = append(opts, len(s.A))
+		}
+		alts := make([]int, len(opts))
+		for i := range alts {
+			alts[i] = i
+		}
+		n := opts[ex.choose("runtime.Callers", alts)]
+		if n == len(s.A) && n > 2 {
+			ex.callersFull++
+		}
+		ex.report.addAssumption("runtime.Callers returns a count in {0, 2, len(pc)} (at most two full buffers per path); pcs are opaque")
+		return ex.ctx.ConstS(64, int64(n))
 	})
-
 	// ---- formatting: opaque strings
 	reg("fmt.Sprintf", func(fr *frame, args []Value) Value { return "<fmt.Sprintf>" })
 	reg("fmt.Sprint", func(fr *frame, args []Value) Value { return "<fmt.Sprint>" })
@@ -228,3 +247,93 @@ func (ex *Exec) findMethod(t types.Type, name string) *ssa.Function {
 }
 
 var _ = fmt.Sprintf
+
+func init() {
+	// sort.Slice / SliceStable: the reflection-based swapper cannot be executed; modelled as an
+	// insertion sort driven by the program's own less(i, j) (one of the permitted outcomes of an
+	// unstable sort; ties keep their input order).
+	sortSlice := func(fr *frame, args []Value) Value {
+		ex := fr.ex
+		it := args[0].(Iface)
+		s, ok := it.V.(Slice)
+		if !ok {
+			ex.goPanic("sort.Slice: argument is not a slice")
+		}
+		less := args[1]
+		ex.report.addAssumption("sort.Slice/SliceStable modelled as a stable insertion sort over the program's less(i, j)")
+		c := ex.ctx
+		for i := 1; i < len(s.A); i++ {
+			for j := i; j > 0; j-- {
+				r := ex.callValue(fr, less, []Value{c.ConstS(64, int64(j)), c.ConstS(64, int64(j-1))}).(*smt.Term)
+				if !ex.branch(r) {
+					break
+				}
+				a, b := copyVal(s.A[j]), copyVal(s.A[j-1])
+				storeInto(&s.A[j], b)
+				storeInto(&s.A[j-1], a)
+			}
+		}
+		return nil
+	}
+	externals["sort.Slice"] = sortSlice
+	externals["sort.SliceStable"] = sortSlice
+	externals["sort.SliceIsSorted"] = func(fr *frame, args []Value) Value {
+		ex := fr.ex
+		s := args[0].(Iface).V.(Slice)
+		c := ex.ctx
+		res := c.True
+		for i := len(s.A) - 1; i > 0; i-- {
+			r := ex.callValue(fr, args[1], []Value{c.ConstS(64, int64(i)), c.ConstS(64, int64(i-1))}).(*smt.Term)
+			res = c.And(res, c.Not(r))
+		}
+		return res
+	}
+}
+
+func init() {
+	// errors.As: documented chain walk (assignable type, As method, Unwrap), natively, because the
+	// stdlib body uses reflection.
+	externals["errors.As"] = func(fr *frame, args []Value) Value {
+		ex := fr.ex
+		err := args[0].(Iface)
+		tgt := args[1].(Iface)
+		if tgt.T == nil {
+			ex.goPanic("errors: target cannot be nil")
+		}
+		pt, ok := tgt.T.Underlying().(*types.Pointer)
+		cell, _ := tgt.V.(*Value)
+		if !ok || cell == nil {
+			ex.goPanic("errors: target must be a non-nil pointer")
+		}
+		want := pt.Elem()
+		for depth := 0; err.T != nil; depth++ {
+			if depth > 16 {
+				ex.boundExceeded("errors.As chain deeper than 16")
+			}
+			if it, isIface := want.Underlying().(*types.Interface); isIface {
+				if types.Implements(err.T, it) {
+					storeInto(cell, err)
+					return ex.ctx.True
+				}
+			} else if types.Identical(err.T, want) {
+				storeInto(cell, err.V)
+				return ex.ctx.True
+			}
+			if m := ex.findMethod(err.T, "As"); m != nil && m.Signature.Params().Len() == 1 {
+				if ex.branch(ex.callSSA(fr, m, []Value{err.V, tgt}, nil).(*smt.Term)) {
+					return ex.ctx.True
+				}
+			}
+			m := ex.findMethod(err.T, "Unwrap")
+			if m == nil || m.Signature.Params().Len() != 0 {
+				break
+			}
+			next, ok := ex.callSSA(fr, m, []Value{err.V}, nil).(Iface)
+			if !ok {
+				break
+			}
+			err = next
+		}
+		return ex.ctx.False
+	}
+}
